@@ -1224,3 +1224,59 @@ func (h H) setIdentityRefusal(rule string) {
 	h.C.Check(rule+" refusal-returned", "SetIdentity", sawRefusal, h.fpos(fn), "SetIdentity must return ErrIdentityAlreadySet when a different identity is stored")
 	h.C.Check(rule+" write-error-returned", "SetIdentity", sawSet, h.fpos(fn), "SetIdentity must return the error of writing the identity")
 }
+
+// setTermPrecondition (C15.9 / C05.7): storage.setTerm asserts that the term
+// grows. An assertion failure is not recovered anywhere — it terminates the
+// process — so every call must lie behind a test that the new term exceeds
+// the current one, whatever messages and tasks preceded it (F15: bootstrap
+// called setTerm(1) on a node that had already adopted a higher term from a
+// vote request).
+func (h H) setTermPrecondition(rule string) {
+	st := h.fn("raft:(*storage).setTerm")
+	// a term reported by a replication goroutine: the comparison was made by
+	// the peer (it answered staleTerm, which its handlers do only for
+	// req.term < their term, C04.6/C17.1b), req.term is this leadership's term
+	// and the update channel does not outlive the leadership (C15.4d)
+	viaPeer := map[string]bool{"(*leader).checkReplUpdates": true}
+	n := 0
+	for _, fn := range h.P.Funcs() {
+		for k, c := range h.P.CallsTo(fn, st) {
+			if c.Parent() != fn {
+				continue
+			}
+			n++
+			fi := h.P.Info(fn)
+			args := c.Common().Args
+			if len(args) != 2 {
+				continue
+			}
+			recv, arg := fi.Sym(args[0]).String(), fi.Sym(args[1]).String()
+			want := core.MkAtom(arg, ">", recv+".term")
+			r := fi.MustCross(c.(ssa.Instruction), func(a core.Atom) bool { return a.Implies(want) })
+			if !r.OK && viaPeer[h.name(fn)] && strings.Contains(arg, "assert[newTerm]") {
+				h.C.Check(rule, h.site(fn, st, k)+" (term reported by a peer)", true, h.pos(c.(ssa.Instruction)), "accepted: newTerm updates are produced only for staleTerm answers (checked below)")
+				continue
+			}
+			h.C.Check(rule, h.site(fn, st, k), r.OK, h.pos(c.(ssa.Instruction)), "setTerm("+arg+") is reachable without "+want.String()+": its assertion would terminate the process: "+r.Witness)
+		}
+	}
+	h.C.Floor(rule+" (calls of storage.setTerm)", n, 5)
+	// producers of newTerm updates: only behind result == staleTerm, carrying the peer's term
+	nl := h.fn("raft:(*replication).notifyLdr")
+	stale := h.constStr("raft:staleTerm")
+	m := 0
+	for _, fn := range h.P.Funcs() {
+		fi := h.P.Info(fn)
+		for k, c := range h.P.CallsTo(fn, nl) {
+			if c.Parent() != fn || len(c.Common().Args) != 2 || !strings.HasPrefix(fi.Sym(c.Common().Args[1]).String(), "new:newTerm") {
+				continue
+			}
+			m++
+			r := fi.MustCross(c.(ssa.Instruction), func(a core.Atom) bool {
+				return a.Op == "==" && (a.R == stale && strings.HasSuffix(a.L, ".result") || a.L == stale && strings.HasSuffix(a.R, ".result"))
+			})
+			h.C.Check(rule+" newTerm-only-for-staleTerm", h.site(fn, nl, k), r.OK, h.pos(c.(ssa.Instruction)), "a newTerm update is sent to the leader for an answer that is not staleTerm: "+r.Witness)
+		}
+	}
+	h.C.Floor(rule+" (newTerm producers)", m, 2)
+}
